@@ -382,3 +382,15 @@ Definition src_fn_StateAnyTrans_output_at (start v sizes ntrans version i : N) :
       then (Ok (t_5 - osize))
       else Panic);
     Ok (Some t_6)).
+
+Definition src_fn_Fst_new_too_short (len version root_addr : N) : bool :=
+  (len <? 32).
+
+Definition src_fn_Fst_new_bad_version (len version root_addr : N) : bool :=
+  ((version =? 0) || (3 <? version)).
+
+Definition src_fn_Fst_new_too_short_v3 (len version root_addr : N) : bool :=
+  ((3 <=? version) && (len <? 36)).
+
+Definition src_fn_Fst_new_bad_root (len version root_addr : N) : bool :=
+  (((root_addr =? 0) && (negb (len =? (if (version <=? 2) then 32 else 36)))) && (negb ((if (version <=? 2) then 17 else 21) =? len))).
